@@ -2,7 +2,7 @@
    (unital ring, scalars embedded centrally, "I" |-> 1); nothing is assumed about the scalars. *)
 From Coq Require Import ZArith List Bool Lia Sorted.
 Import ListNotations.
-From RV Require Import Model.OpAlg.
+From RV Require Import Model.OpAlg Gen.CheckTerms.
 
 Lemma filter_length_le' : forall {A} (p : A -> bool) l, (length (filter p l) <= length l)%nat.
 Proof. induction l; simpl; [lia|]. destruct (p a); simpl; lia. Qed.
@@ -622,6 +622,98 @@ Proof.
   - intros H. apply to_tuple_inj. apply op_eqb_tuple; assumption.
   - intros ->. apply op_eqb_tuple; auto.
 Qed.
+
+(* ---- Model.check_operator_terms as translated into Gen/CheckTerms.v ---- *)
+Section CheckTermsProofs.
+Variable ra : ralg.
+Hypothesis rok : ralg_ok ra.
+
+(* the translated filter is the model's zero filter, whenever it does not raise; it raises iff a dof is unknown *)
+Lemma ct_filter_spec : forall known (s r : list (op ra)),
+  ct_filter ra known s = Some r <-> (forallb (ct_dofs_known ra known) s = true /\ r = zero_filter ra s).
+Proof.
+  intros known. induction s; simpl; intros r.
+  - split. + intros H. injection H as <-. auto. + intros [_ ->]. reflexivity.
+  - destruct (ct_dofs_known ra known a); simpl.
+    + destruct (ct_filter ra known s) as [q|] eqn:Hq.
+      * destruct (proj1 (IHs q) eq_refl) as [Hk ->]. rewrite Hk. unfold ct_discard.
+        destruct (reqb ra (factor a) (r0 ra)); simpl; split.
+        -- intros H. injection H as <-. auto.
+        -- intros [_ ->]. reflexivity.
+        -- intros H. injection H as <-. auto.
+        -- intros [_ ->]. reflexivity.
+      * split; [discriminate|]. intros [Hk _].
+        pose proof (proj2 (IHs (zero_filter ra s)) (conj Hk eq_refl)) as X. discriminate X.
+    + split; [discriminate|]. intros [H _]. discriminate.
+Qed.
+
+Lemma ct_discard_exact : forall o : op ra, ct_discard ra o = reqb ra (factor o) (r0 ra).
+Proof. intros. reflexivity. Qed.
+
+(* a term is kept iff its factor is not zero: nothing else is ever dropped, whatever its magnitude *)
+Lemma ct_filter_keeps_iff_nonzero : forall known (s r : list (op ra)) o,
+  ct_filter ra known s = Some r -> (In o r <-> In o s /\ factor o <> r0 ra).
+Proof.
+  intros known s r o H. apply ct_filter_spec in H. destruct H as [_ ->]. unfold zero_filter.
+  rewrite filter_In. split; intros [H1 H2]; split; auto.
+  - intros E. apply (ok_reqb ra rok) in E. rewrite E in H2. discriminate.
+  - destruct (reqb ra (factor o) (r0 ra)) eqn:E; auto. apply (ok_reqb ra rok) in E. contradiction.
+Qed.
+
+(* scale equivariance: for a scalar c that is not a zero divisor, filter (terms * c) = (filter terms) * c *)
+Lemma zero_filter_scale : forall c,
+  (forall a, rmul ra a c = r0 ra -> a = r0 ra) -> rmul ra (r0 ra) c = r0 ra ->
+  forall s, zero_filter ra (sum_scal ra s c) = sum_scal ra (zero_filter ra s) c.
+Proof.
+  intros c Hreg H0. induction s; simpl; auto.
+  assert (reqb ra (rmul ra (factor a) c) (r0 ra) = reqb ra (factor a) (r0 ra)) as E.
+  { destruct (reqb ra (factor a) (r0 ra)) eqn:E1.
+    - apply (ok_reqb ra rok) in E1. rewrite E1, H0. apply (ok_reqb ra rok). reflexivity.
+    - destruct (reqb ra (rmul ra (factor a) c) (r0 ra)) eqn:E2; auto.
+      apply (ok_reqb ra rok) in E2. apply Hreg in E2. rewrite E2 in E1.
+      rewrite (proj2 (ok_reqb ra rok _ _) eq_refl) in E1. discriminate. }
+  rewrite E. destruct (reqb ra (factor a) (r0 ra)); simpl; rewrite IHs; reflexivity.
+Qed.
+Lemma ct_known_scale : forall known c (s : list (op ra)),
+  forallb (ct_dofs_known ra known) (sum_scal ra s c) = forallb (ct_dofs_known ra known) s.
+Proof. induction s; simpl; auto. rewrite IHs. reflexivity. Qed.
+Lemma ct_filter_scale : forall known c,
+  (forall a, rmul ra a c = r0 ra -> a = r0 ra) -> rmul ra (r0 ra) c = r0 ra ->
+  forall s, ct_filter ra known (sum_scal ra s c) = option_map (fun r => sum_scal ra r c) (ct_filter ra known s).
+Proof.
+  intros known c Hreg H0 s.
+  destruct (ct_filter ra known s) as [r|] eqn:Hs; simpl.
+  - apply ct_filter_spec in Hs. destruct Hs as [Hk ->]. apply ct_filter_spec. split.
+    + rewrite ct_known_scale. exact Hk.
+    + symmetry. apply zero_filter_scale; assumption.
+  - destruct (ct_filter ra known (sum_scal ra s c)) as [q|] eqn:Hq; auto.
+    apply ct_filter_spec in Hq. destruct Hq as [Hk _]. rewrite ct_known_scale in Hk.
+    pose proof (proj2 (ct_filter_spec known s (zero_filter ra s)) (conj Hk eq_refl)) as X. rewrite Hs in X. discriminate X.
+Qed.
+
+(* denotation: the cleaned list denotes the sum of the operators handed in *)
+Variable ma : malg ra.
+Hypothesis ok : malg_ok ra ma.
+Lemma ct_ravel_den : forall (l : list (val ra)) s, ct_ravel ra l = Some s ->
+  dens ra ma s = fold_right (fun v acc => madd ma (denv ra ma v) acc) (m0 ma) l.
+Proof.
+  induction l; simpl; intros s H.
+  - injection H as <-. reflexivity.
+  - destruct (ct_item ra a) as [x|] eqn:Ha; [|discriminate].
+    destruct (ct_ravel ra l) as [r|] eqn:Hr; [|discriminate]. injection H as <-.
+    rewrite (dens_app ra ma ok), (IHl _ eq_refl). f_equal.
+    destruct a; simpl in Ha; try discriminate; injection Ha as <-; simpl; auto.
+    apply (dens_single ra ma ok).
+Qed.
+Lemma check_operator_terms_den : forall known (l : list (val ra)) r,
+  check_operator_terms ra known l = Some r ->
+  dens ra ma r = fold_right (fun v acc => madd ma (denv ra ma v) acc) (m0 ma) l.
+Proof.
+  unfold check_operator_terms. intros known l r H. destruct (ct_ravel ra l) as [s|] eqn:Hs; [|discriminate].
+  simpl in H. apply ct_filter_spec in H. destruct H as [_ ->].
+  rewrite (zero_filter_den ra ma ok rok). apply ct_ravel_den. exact Hs.
+Qed.
+End CheckTermsProofs.
 
 (* ---- tolerance bound for simplify with atol > 0 ---- *)
 Section Bound.
